@@ -464,3 +464,542 @@ func c10EnvelopeReadOnly(c *Check, rule string) {
 		c.Fail(rule, "stores", token.NoPos, "undecided: fewer than two stores into message metadata found in the queue package (the Conn strip and the per-attempt ID)")
 	}
 }
+
+// c11DestKeyIsTakeKey: the destination permit is taken under the recipient domain as connectionForDomain received it
+// and released (in remoteDelivery.Close) under mxConn.domain. The two are the same string only if the connection
+// object is labelled with that very parameter: the parameter is never assigned on its way into the `domain` field.
+func c11DestKeyIsTakeKey(c *Check, rule string) {
+	c.Rule(rule, "remote target: the key a destination permit is released under (mxConn.domain) is the string it was taken under – the domain parameter reaches the connection's domain field without being assigned in between (an A-label conversion on the way releases a key that holds no permit)", 2)
+	p := c.P
+	n := 0
+	for _, nm := range []string{"newConn", "connectionForDomain"} {
+		fi := p.Func(remoteRel, "remoteDelivery", nm)
+		if fi == nil {
+			continue
+		}
+		info := fi.Info()
+		sig := fi.Obj.Type().(*types.Signature)
+		var dom *types.Var
+		for i := 0; i < sig.Params().Len(); i++ {
+			if isStringType(sig.Params().At(i).Type()) {
+				dom = sig.Params().At(i)
+			}
+		}
+		if dom == nil {
+			continue
+		}
+		c.SawFunc(fi.Name())
+		// uses of the parameter as the permit key or as the label of a connection
+		uses := 0
+		ast.Inspect(fi.Decl.Body, func(x ast.Node) bool {
+			switch y := x.(type) {
+			case *ast.KeyValueExpr:
+				if id, ok := y.Key.(*ast.Ident); ok && id.Name == "domain" && objOf(info, y.Value) == types.Object(dom) {
+					uses++
+				}
+			case *ast.CallExpr:
+				if (methodName(y) == "TakeDest" || methodName(y) == "ReleaseDest") && len(y.Args) >= 1 && objOf(info, y.Args[len(y.Args)-1]) == types.Object(dom) {
+					uses++
+				}
+			case *ast.AssignStmt:
+				for i, l := range y.Lhs {
+					if sel, ok := ast.Unparen(l).(*ast.SelectorExpr); ok && sel.Sel.Name == "domain" && i < len(y.Rhs) && objOf(info, y.Rhs[i]) == types.Object(dom) {
+						uses++
+					}
+				}
+			}
+			return true
+		})
+		if uses == 0 {
+			continue
+		}
+		n++
+		reassigned := assignedAnywhere(info, fi.Decl.Body, dom)
+		c.Hold(rule, nm+":domain-key-unchanged", fi.Decl.Pos(), !reassigned, "the recipient-domain parameter of "+nm+" is assigned a new value inside the function and then used as the connection's label / permit key: the permit was taken under the string the caller passed (U-labels) and is released under the new one (A-labels) – the release finds no such bucket, the permit of an internationalized domain is never returned and after N deliveries the domain is refused for good")
+	}
+	if n < 2 {
+		c.Fail(rule, "domain-key", token.NoPos, "undecided: the take / label sites of the destination permit were not found")
+	}
+}
+
+// c13RetryKeepsServerName: DANE-TA ("the chain is anchored in this CA") still verifies the certificate for the MX host
+// name; verifyDANE takes the name from the connection state. The unauthenticated retry after a PKIX failure must
+// therefore keep the ServerName of the first attempt: it modifies the configuration it already has, it does not start
+// again from the target's template (whose ServerName is empty).
+func c13RetryKeepsServerName(c *Check, rule string) {
+	c.Rule(rule, "remoteDelivery.connect: the TLS configuration used for a connection is assigned once, with its ServerName, before the retry label – no path of the retry replaces it (the DANE-TA host-name check needs the name on the insecure retry as well)", 1)
+	r := c.need(rule, remoteRel, "remoteDelivery", "connect")
+	if r == nil {
+		return
+	}
+	info := r.Info
+	// the local holding the *tls.Config
+	var cfg types.Object
+	ast.Inspect(r.FI.Decl.Body, func(x ast.Node) bool {
+		if as, ok := x.(*ast.AssignStmt); ok {
+			for i, l := range as.Lhs {
+				if sel, ok := ast.Unparen(l).(*ast.SelectorExpr); ok && sel.Sel.Name == "ServerName" && i < len(as.Rhs) {
+					if o := objOf(info, sel.X); o != nil {
+						cfg = o
+					}
+				}
+			}
+		}
+		return true
+	})
+	if cfg == nil {
+		c.Fail(rule, "connect:server-name", r.FI.Decl.Pos(), "undecided: no TLS configuration with a ServerName assignment in connect")
+		return
+	}
+	var names, defs []Pt
+	for _, pt := range r.F.Points() {
+		as, ok := pt.Node().(*ast.AssignStmt)
+		if !ok {
+			continue
+		}
+		for _, l := range as.Lhs {
+			if sel, ok := ast.Unparen(l).(*ast.SelectorExpr); ok && sel.Sel.Name == "ServerName" && objOf(info, sel.X) == cfg {
+				names = append(names, pt)
+			}
+			if objOf(info, l) == cfg {
+				// `cfg = nil` switches TLS off for the plaintext retry (the handshake is guarded by cfg != nil)
+				if len(as.Rhs) == len(as.Lhs) {
+					isNil := false
+					for i2, l2 := range as.Lhs {
+						if l2 == l && isNilIdent(info, as.Rhs[i2]) {
+							isNil = true
+						}
+					}
+					if isNil {
+						continue
+					}
+				}
+				defs = append(defs, pt)
+			}
+		}
+	}
+	// a (re)definition of the configuration that can reach a handshake without passing a ServerName assignment
+	msg := ""
+	shakes := r.F.PtCalls(func(info *types.Info, call *ast.CallExpr) bool {
+		if methodName(call) != "Connect" && methodName(call) != "ConnectLMTP" && methodName(call) != "StartTLS" {
+			return false
+		}
+		for _, a := range call.Args {
+			if objOf(info, a) == cfg {
+				return true
+			}
+		}
+		return false
+	})
+	for _, d := range defs {
+		if path, f := r.F.Reach(Query{From: []Pt{d}, Target: shakes, Avoid: isPt(names)}); f {
+			msg = "the TLS configuration is replaced (line " + itoa(c.P.Fset.Position(d.Node().Pos()).Line) + ") and used for a handshake without its ServerName being set again: on the unauthenticated retry the connection state carries no server name, verifyDANE checks the DANE-TA chain for the empty name – a certificate issued by the pinned CA for ANY host authenticates the MX: " + r.F.Describe(path)
+		}
+	}
+	c.Hold(rule, "connect:server-name-kept", r.FI.Decl.Pos(), msg == "" && len(defs) > 0 && len(names) > 0, msg)
+}
+
+// c13WholeRRset: "if any TLSA record exists and TLS was not negotiated, the connection is refused" is decided by
+// verifyDANE on the RRset as published; it is verifyDANE that sets unusable records aside, after that decision. The
+// lookup must hand over every TLSA record of the answer: a filter in the resolver makes an RRset of out-of-range
+// records look absent and the message goes out in plain text.
+func c13WholeRRset(c *Check, rule string) {
+	c.Rule(rule, "AuthLookupTLSA returns every TLSA record of the answer: inside the loop over the answer section nothing but the type assertion skips a record (usability is judged by verifyDANE, after the 'records exist' decision)", 1)
+	r := c.need(rule, "framework/dns", "ExtResolver", "AuthLookupTLSA")
+	if r == nil {
+		return
+	}
+	info := r.Info
+	msg := "undecided: no loop over the answer section that collects TLSA records"
+	ast.Inspect(r.FI.Decl.Body, func(x ast.Node) bool {
+		rs, ok := x.(*ast.RangeStmt)
+		if !ok {
+			return true
+		}
+		var appendPt *ast.AssignStmt
+		ast.Inspect(rs.Body, func(y ast.Node) bool {
+			if as, ok := y.(*ast.AssignStmt); ok && len(as.Lhs) == 1 && len(as.Rhs) == 1 {
+				if o, _ := appendTarget(info, as.Lhs[0], as.Rhs[0]); o != nil {
+					appendPt = as
+				}
+			}
+			return true
+		})
+		if appendPt == nil {
+			return true
+		}
+		msg = ""
+		// conditions inside the loop body: only the comma-ok flag of the type assertion may lead to `continue`
+		var okObj types.Object
+		ast.Inspect(rs.Body, func(y ast.Node) bool {
+			if as, ok := y.(*ast.AssignStmt); ok && len(as.Lhs) == 2 && len(as.Rhs) == 1 {
+				if _, isTA := ast.Unparen(as.Rhs[0]).(*ast.TypeAssertExpr); isTA {
+					okObj = objOf(info, as.Lhs[1])
+				}
+			}
+			return true
+		})
+		ast.Inspect(rs.Body, func(y ast.Node) bool {
+			is, ok := y.(*ast.IfStmt)
+			if !ok {
+				return true
+			}
+			skips := false
+			ast.Inspect(is.Body, func(z ast.Node) bool {
+				if b, ok := z.(*ast.BranchStmt); ok && (b.Tok == token.CONTINUE || b.Tok == token.BREAK) {
+					skips = true
+				}
+				return true
+			})
+			if !skips {
+				return true
+			}
+			onlyOK := false
+			if u, isNot := ast.Unparen(is.Cond).(*ast.UnaryExpr); isNot && u.Op == token.NOT && okObj != nil && objOf(info, u.X) == okObj {
+				onlyOK = true
+			}
+			if !onlyOK {
+				msg = "a TLSA record of the answer is skipped by the resolver when `" + exprStr(is.Cond) + "`: an RRset that consists of such records only arrives empty, verifyDANE sees 'no TLSA records' and the message is sent without TLS although records are published (stripping STARTTLS is enough)"
+			}
+			return true
+		})
+		return false
+	})
+	c.Hold(rule, "AuthLookupTLSA:whole-rrset", r.FI.Decl.Pos(), msg == "", msg)
+}
+
+// c14SameStatementArgs: a mutable SQL table sets a key by "INSERT, else UPDATE". Both statements are written by the
+// administrator against one argument list (key, value – by name or by number): the two Exec calls get the very same
+// arguments. A second list in "the order the placeholders are written" binds numbered placeholders ($1 / ?1) the wrong
+// way round: the UPDATE matches no row and reports no error – a password change "succeeds" and the old password
+// stays valid.
+func c14SameStatementArgs(c *Check, rule string) {
+	c.Rule(rule, "table.sql_query SetKey: the update statement is executed with the same argument list as the insert statement (one variable, not redefined in between)", 1)
+	r := c.need(rule, "internal/table", "SQL", "SetKey")
+	if r == nil {
+		return
+	}
+	info := r.Info
+	var execs []*ast.CallExpr
+	for _, call := range callsIn(r.FI.Decl.Body) {
+		if methodName(call) == "Exec" && call.Ellipsis.IsValid() && len(call.Args) == 1 {
+			execs = append(execs, call)
+		}
+	}
+	msg := ""
+	if len(execs) < 2 {
+		msg = "undecided: fewer than two statements executed with a spread argument list"
+	} else {
+		first := objOf(info, execs[0].Args[0])
+		for _, e := range execs[1:] {
+			if o := objOf(info, e.Args[0]); o == nil || o != first {
+				msg = "the update statement is executed with " + exprStr(e.Args[0]) + ", the insert statement with " + exprStr(execs[0].Args[0]) + ": statements with numbered or named placeholders are written against one argument order – with another one the UPDATE matches no row, SetUserPassword reports success and the previous password keeps authenticating"
+			}
+		}
+		if first != nil && msg == "" {
+			// and the list is not redefined between the two executions
+			p1, ok1 := r.F.PtOfNode(execs[0])
+			if ok1 {
+				for _, e := range execs[1:] {
+					p2, ok2 := r.F.PtOfNode(e)
+					if !ok2 {
+						continue
+					}
+					if _, f := r.F.Reach(Query{From: []Pt{p1}, Target: func(q Pt) bool { return q == p2 }, Avoid: func(q Pt) bool { return q != p1 && q != p2 && q.Node() != nil && assignsObj(info, q.Node(), first) }}); !f {
+						msg = "the argument list is redefined between the insert and the update statement"
+					}
+				}
+			}
+		}
+	}
+	c.Hold(rule, "SQL.SetKey:same-arguments", r.FI.Decl.Pos(), msg == "", msg)
+}
+
+// c15FileStampIsMTime: table.file reloads its content when the file's modification time is not before the stamp it
+// keeps. The stamp must itself be a modification time (of the file that was loaded). The time of the reload is later
+// than the mtime of any file that is then moved or copied into place with its times preserved (mv, cp -p, rsync -t,
+// configuration management): such a replacement – a revoked entitlement, a removed alias – is ignored until restart.
+func c15FileStampIsMTime(c *Check, rule string) {
+	c.Rule(rule, "table.file: the stamp the reload decision compares the file's modification time with is a modification time – every store to it comes from a ModTime() call (not the wall clock)", 1)
+	p := c.P
+	n := 0
+	for _, fi := range funcsOfPkgs(p, "internal/table") {
+		info := fi.Info()
+		ast.Inspect(fi.Decl.Body, func(x ast.Node) bool {
+			as, ok := x.(*ast.AssignStmt)
+			if !ok || len(as.Lhs) != len(as.Rhs) {
+				return true
+			}
+			for i, l := range as.Lhs {
+				if !isField(info, l, "File", "mStamp") {
+					continue
+				}
+				n++
+				c.SawFunc(fi.Name())
+				call, isCall2 := ast.Unparen(as.Rhs[i]).(*ast.CallExpr)
+				ok := isCall2 && methodName(call) == "ModTime"
+				c.Hold(rule, fi.Name()+":mStamp", as.Pos(), ok, "the reload stamp of table.file is set to "+exprStr(as.Rhs[i])+", not to the modification time of the file that was read: a replacement file whose own mtime is older than the last reload (moved or copied into place with its times) is never loaded – an entitlement revoked in it stays in force")
+			}
+			return true
+		})
+	}
+	if n == 0 {
+		c.Fail(rule, "mStamp", token.NoPos, "undecided: no store to the reload stamp of table.file found")
+	}
+}
+
+// c16LimitErrorsKeepIdentity: the endpoint answers a limiter time-out with 451 4.4.5 because it recognises
+// context.DeadlineExceeded in the error chain. An error of the limits package that embeds another error with %v / %s
+// instead of %w cuts the chain: the time-out becomes "554 5.0.0 Internal server error" while the same value is still
+// "temporary or unspecified" for a queue – the two classifications of one failure disagree.
+func c16LimitErrorsKeepIdentity(c *Check, rule string) {
+	c.Rule(rule, "limits: an error built from another error keeps it in its chain – every fmt.Errorf in internal/limits and internal/limits/limiters with an error-typed argument formats that argument with %w", 0)
+	p := c.P
+	n := 0
+	for _, rel := range []string{"internal/limits", "internal/limits/limiters"} {
+		for _, fi := range funcsOfPkgs(p, rel) {
+			info := fi.Info()
+			for _, call := range callsIn(fi.Decl.Body) {
+				if !isCall(info, call, "fmt.Errorf") || len(call.Args) < 2 {
+					continue
+				}
+				format, ok := constString(info, call.Args[0])
+				if !ok {
+					continue
+				}
+				// verbs in order
+				var verbs []byte
+				for i := 0; i+1 < len(format); i++ {
+					if format[i] != '%' {
+						continue
+					}
+					j := i + 1
+					for j < len(format) && strings.ContainsRune("+-# 0123456789.", rune(format[j])) {
+						j++
+					}
+					if j < len(format) {
+						if format[j] != '%' {
+							verbs = append(verbs, format[j])
+						}
+						i = j
+					}
+				}
+				for ai, a := range call.Args[1:] {
+					if tv, has := info.Types[a]; !has || !isErrorType(tv.Type) {
+						continue
+					}
+					n++
+					c.SawFunc(fi.Name())
+					okW := ai < len(verbs) && verbs[ai] == 'w'
+					c.Hold(rule, fi.Name()+":Errorf:"+exprStr(a), call.Pos(), okW, "the limits package wraps "+exprStr(a)+" without %w: the endpoint no longer recognises the limiter's time-out (context.DeadlineExceeded) and answers `554 5.0.0 Internal server error` instead of `451 4.4.5`, while a queue treats the same error as temporary")
+				}
+			}
+		}
+	}
+	if n == 0 {
+		c.HoldConst(rule, "limits:no-wrapping", token.NoPos, true, "")
+	}
+}
+
+// c20LineBreaksAgree: the dispenser decides "same line / next line" for a token by adding the line breaks INSIDE the
+// previous (quoted) token to the line the lexer recorded for it. The lexer advances its line counter on '\n' only.
+// numLineBreaks must count exactly that: a lone CR counted here but not there moves the expected line of the next
+// token, and the directive on the following line is taken for arguments of the current one.
+func c20LineBreaksAgree(c *Check, rule string) {
+	c.Rule(rule, "Dispenser.numLineBreaks counts exactly the character the lexer advances its line counter on: its result is a single strings.Count of \"\\n\" (no other pattern, no arithmetic)", 1)
+	r := c.need(rule, lexerRel, "Dispenser", "numLineBreaks")
+	if r == nil {
+		return
+	}
+	info := r.Info
+	msg := ""
+	n := 0
+	for _, call := range callsIn(r.FI.Decl.Body) {
+		if !isCall(info, call, "strings.Count", "bytes.Count") || len(call.Args) != 2 {
+			continue
+		}
+		n++
+		if pat, ok := constString(info, call.Args[1]); !ok || pat != "\n" {
+			msg = "numLineBreaks counts " + exprStr(call.Args[1]) + " as a line break, the lexer advances its line counter on '\\n' only: for a quoted token with such a character the dispenser expects the next token one line further down – the directive that really is on the next line is swallowed as arguments of the current one, and the printed tree does not parse back to the same tree"
+		}
+	}
+	if n != 1 && msg == "" {
+		msg = "undecided: numLineBreaks is not a single count of the line feed character"
+	}
+	c.Hold(rule, "Dispenser.numLineBreaks:agrees-with-lexer", r.FI.Decl.Pos(), msg == "", msg)
+}
+
+// c19CloseClosesSocket: the pool closes a connection by calling Close() on it once. go-smtp's Quit closes the socket
+// only when the server answered QUIT positively; on every other outcome the socket is still open and Close must close
+// it itself. A return on the QUIT-failed edge without cl.Close() leaks the descriptor and the MX session.
+func c19CloseClosesSocket(c *Check, rule string) {
+	c.Rule(rule, "smtpconn.C.Close: on the edge on which QUIT failed, every return is preceded by (or is) cl.Close() – whatever the error was, 421 included (the pool relies on one Close() to really close)", 1)
+	r := c.need(rule, "internal/smtpconn", "C", "Close")
+	if r == nil {
+		return
+	}
+	info := r.Info
+	quit := calling("github.com/emersion/go-smtp.Client.Quit")
+	sites := r.Calls(func(i *types.Info, call *ast.CallExpr) bool { return quit(i, call) || methodName(call) == "Quit" })
+	msg := ""
+	if len(sites) == 0 {
+		msg = "undecided: Close does not send QUIT"
+	}
+	closesSock := func(n ast.Node) bool {
+		hit := false
+		if n == nil {
+			return false
+		}
+		inspectNoLit(n, func(x ast.Node) bool {
+			if call, ok := x.(*ast.CallExpr); ok && methodName(call) == "Close" && isField(info, callRecv(call), "C", "cl") {
+				hit = true
+			}
+			return true
+		})
+		return hit
+	}
+	for _, pt := range sites {
+		var call *ast.CallExpr
+		for _, cc := range callsAt(pt.Node()) {
+			if methodName(cc) == "Quit" {
+				call = cc
+			}
+		}
+		openExit := func(q Pt) bool {
+			if !r.F.IsNormalExit(q) {
+				return false
+			}
+			_, ret := r.F.Exit(q)
+			return ret == nil || !closesSock(ret)
+		}
+		found, w, decided := r.OnErr(pt, call, false, openExit, func(q Pt) bool { return closesSock(q.Node()) })
+		if !decided {
+			msg = "undecided: the error of QUIT is not assigned"
+		} else if found {
+			msg = "Close can return after a failed QUIT without closing the client's socket: go-smtp closes it only after a positive reply – a server that answers QUIT with 421 (shutting down, idle time-out) leaves the descriptor and its own session slot open for every pooled connection: " + w
+		}
+	}
+	c.Hold(rule, "C.Close:socket-closed-on-failed-quit", r.FI.Decl.Pos(), msg == "", msg)
+}
+
+// c19StampIsOwnEnd: the idle lifetime of a pooled connection is measured from ITS last use. Each connection's
+// lastUseAt is stamped where its own transaction ends – inside the per-connection goroutine of BodyNonAtomic / in
+// Body – not after the wait for all connections of the message (the slowest destination's end time would make a
+// connection that has been idle for minutes look fresh, and it is handed out past its lifetime).
+func c19StampIsOwnEnd(c *Check, rule string) {
+	c.Rule(rule, "remote target: a connection's lastUseAt is never stamped after the WaitGroup.Wait that joins the per-connection transactions of a message (each connection is stamped when its own transaction ends)", 1)
+	p := c.P
+	n := 0
+	for _, fi := range funcsOfPkgs(p, remoteRel) {
+		info := fi.Info()
+		has := false
+		ast.Inspect(fi.Decl.Body, func(x ast.Node) bool {
+			if sel, ok := x.(*ast.SelectorExpr); ok && sel.Sel.Name == "lastUseAt" {
+				has = true
+			}
+			return !has
+		})
+		if !has {
+			continue
+		}
+		r := &RuleCtx{C: c, FI: fi, F: p.FlowOfFunc(fi), Info: info}
+		for _, pt := range r.F.Points() {
+			as, ok := pt.Node().(*ast.AssignStmt)
+			if !ok {
+				continue
+			}
+			for _, l := range as.Lhs {
+				sel, ok := ast.Unparen(l).(*ast.SelectorExpr)
+				if !ok || sel.Sel.Name != "lastUseAt" || fieldOf(info, sel) == nil {
+					continue
+				}
+				n++
+				c.SawFunc(fi.Name())
+				waits := r.F.PtCalls(func(i *types.Info, call *ast.CallExpr) bool { return isCall(i, call, "sync.WaitGroup.Wait") })
+				_, after := r.F.Reach(Query{From: r.Entry(), Inclusive: true, Target: func(q Pt) bool { return q == pt }, Avoid: func(q Pt) bool { return false }})
+				passesWait := false
+				if after {
+					if okMP, _ := r.MustPass(r.Entry(), true, func(q Pt) bool { return q == pt }, waits); okMP && len(r.Calls(func(i *types.Info, call *ast.CallExpr) bool { return isCall(i, call, "sync.WaitGroup.Wait") })) > 0 {
+						passesWait = true
+					}
+				}
+				c.Hold(rule, fi.Name()+":lastUseAt", as.Pos(), !passesWait, "lastUseAt is stamped after the wait for ALL connections of the message: a connection whose own transaction ended long before the slowest destination finished enters the pool with a fresh stamp and is handed out although it has been idle for longer than conn_max_idle_time")
+			}
+		}
+	}
+	// stamps inside goroutine literals are not points of the enclosing flow: count them as sites
+	for _, fi := range funcsOfPkgs(p, remoteRel) {
+		info := fi.Info()
+		ast.Inspect(fi.Decl.Body, func(x ast.Node) bool {
+			if fl, ok := x.(*ast.FuncLit); ok {
+				ast.Inspect(fl.Body, func(y ast.Node) bool {
+					if as, ok := y.(*ast.AssignStmt); ok {
+						for _, l := range as.Lhs {
+							if sel, ok := ast.Unparen(l).(*ast.SelectorExpr); ok && sel.Sel.Name == "lastUseAt" && fieldOf(info, sel) != nil {
+								n++
+							}
+						}
+					}
+					return true
+				})
+				return false
+			}
+			return true
+		})
+	}
+	if n == 0 {
+		c.Fail(rule, "lastUseAt:stamps", token.NoPos, "undecided: no store to lastUseAt found in the remote target")
+	}
+}
+
+
+// c16StatusAsStored: a failure report prints the stored reply of the recipient twice – `Status:` (the enhanced code)
+// and `Diagnostic-Code:` (basic code, enhanced code, text). Both come from the same stored value, unmodified: a
+// writer that "corrects" the class of one of them makes the two disagree (Status: 5.4.2 next to 451 4.4.2).
+func c16StatusAsStored(c *Check, rule string) {
+	c.Rule(rule, "dsn.RecipientInfo.WriteTo prints the Status field from the stored status as it is: the three numbers are the elements of the receiver's Status, not of a modified copy", 1)
+	r := c.need(rule, "internal/dsn", "RecipientInfo", "WriteTo")
+	if r == nil {
+		return
+	}
+	info := r.Info
+	var recv types.Object
+	if r.FI.Decl.Recv != nil && len(r.FI.Decl.Recv.List) == 1 && len(r.FI.Decl.Recv.List[0].Names) == 1 {
+		recv = info.Defs[r.FI.Decl.Recv.List[0].Names[0]]
+	}
+	msg := "undecided: no Status field written"
+	for _, call := range callsIn(r.FI.Decl.Body) {
+		if methodName(call) != "Add" || len(call.Args) != 2 {
+			continue
+		}
+		if k, ok := constString(info, call.Args[0]); !ok || k != "Status" {
+			continue
+		}
+		msg = ""
+		ast.Inspect(call.Args[1], func(x ast.Node) bool {
+			ix, ok := x.(*ast.IndexExpr)
+			if !ok {
+				return true
+			}
+			sel, isSel := ast.Unparen(ix.X).(*ast.SelectorExpr)
+			if !isSel || sel.Sel.Name != "Status" || recv == nil || objOf(info, sel.X) != recv {
+				msg = "the Status field is printed from " + exprStr(ix.X) + ", not from the stored status of the recipient: a class rewritten for the Status line disagrees with the Diagnostic-Code line printed from the stored reply (Status: 5.4.2 / Diagnostic-Code: smtp; 451 4.4.2) and with how the failure was treated"
+			}
+			return true
+		})
+	}
+	// no store into the receiver's Status either
+	ast.Inspect(r.FI.Decl.Body, func(x ast.Node) bool {
+		if as, ok := x.(*ast.AssignStmt); ok {
+			for _, l := range as.Lhs {
+				if ix, ok := ast.Unparen(l).(*ast.IndexExpr); ok {
+					if sel, ok := ast.Unparen(ix.X).(*ast.SelectorExpr); ok && sel.Sel.Name == "Status" && recv != nil && objOf(info, sel.X) == recv {
+						msg = "the writer modifies the stored status before printing it"
+					}
+				}
+			}
+		}
+		return true
+	})
+	c.Hold(rule, "RecipientInfo.WriteTo:status-as-stored", r.FI.Decl.Pos(), msg == "", msg)
+}
